@@ -219,11 +219,11 @@ claim("C20", "proof",
 claim("C08", "proof",
       "Lean 4 theorems (Props/C08.lean) on the model of find_signal_assignments over abstracted statement lists: exactly one report per "
       "`<--` statement, anchored at it and in statement order (bijection), of exactly one of the two kinds decided by the degree fact; the "
-      "secondary locations of a `signal assignment` report are exactly the constraints that read the assigned signal with the same access; "
+      "secondary locations of a `signal assignment` report are exactly the constraints that mention the assigned signal: read it, or assign it with `<==`, with an access that may denote the same signal (mayAlias: equal ports, indices identified unless known to differ, array vs element; reflexive, symmetric, prefix-closed; every constraint with an equal access is listed; fix 8573db1/a911234 — before it accesses had to be equal); "
       "nothing for functions/custom templates; nothing anchored at any other statement. The model is tied to the code per run: every real "
       "CFG is abstracted from the harness dump and model reports = real CS0005/CS0013 reports (L2); independently an oracle counts `<--` "
       "tokens/statements in the generated source (incl. tuple elements, anonymous-component inputs, loops, branches) and demands one report "
-      "per occurrence with the expected secondaries (L1).",
+      "per occurrence with the expected secondaries (L1, may-alias on the source text; shapes: `<--`/`<==` to one signal or port on two branches, a whole array assigned at once, elements assigned in one loop and constrained in another).",
       "Lean kernel + standard axioms; the abstraction CFG -> statement list (harness dump + checks/c08.py) and lifting/desugaring are "
       "covered by correspondence, not proved; the nodup hypothesis of the bijection theorem is evaluated on every CFG.",
       "Lean 4 proof (bijection / kinds / secondaries on the pass model) + per-CFG correspondence + source-level counting oracle", "5 (C08)")
@@ -237,7 +237,7 @@ claim("C19", "proof",
       "input iff its canonical path was named, and every named file is read. Tie per run: generated directory trees (6 directories, file and "
       "directory symlinks, 8 spellings, cycles, unparsable/unreadable files, directory and single-file libraries) are abstracted by an "
       "independent resolver; order of reads, user flags and ordered located errors of the real parse_files = model (L2); reachability oracle, "
-      "no duplicate, error located exactly at the include statement, only named files' definitions analysed and displayed, binary exit 0/1 (L1). After the round-3 repairs (345938e, fbd2e79, 6f927a8): every written path is looked up in the -L directories, a library file is matched by the name it was given, an unreadable included file is reported at the include statement, and named directories with symbolic links back into the tree are read once (a stage through the real binary under a time limit); the resolution oracle states the property literally instead of copying the code's exception for dotted paths.",
+      "no duplicate, error located exactly at the include statement, only named files' definitions analysed and displayed, binary exit 0/1 (L1). After the round-3 repairs (345938e, fbd2e79, 6f927a8): every written path is looked up in the -L directories, a library file is matched by the name it was given, an unreadable included file is reported at the include statement, and named directories with symbolic links back into the tree are read once (a stage through the real binary under a time limit); the resolution oracle states the property literally instead of copying the code's exception for dotted paths. Each file is read once also at the level of system calls: the open/openat calls of the real binary under strace on five include layouts (fix 0fa1b2d).",
       "Lean kernel + standard axioms; the OS (canonicalize, is_dir, read_to_string) is abstracted into the tables computed by "
       "checks/c19.py with Python's realpath/isfile; directory inputs (read_dir order) are not generated.",
       "Lean 4 proof (invariant + termination measure for the include work list) + correspondence on materialised trees + reachability oracle", "5 (C19)")
